@@ -46,3 +46,71 @@ Proof.
   destruct (sim_run me _ _ d w (sim_set_channel me ch) Hme _ _ _ E) as (d1 & w1 & E1 & _ & Hcv & Hf & _).
   exists d1, w1. split; [exact E1|]. intro j. destruct (Nat.eq_dec j me) as [->|Hj]; [exact Hcv|apply Hf; exact Hj].
 Qed.
+
+(* ---- address_length = len, 3 <= len <= 5: SETUP_AW := len - 2, nothing else ---- *)
+Lemma cwrite_plain c a v : (a = 3 \/ a = 4)%N -> (v < 256)%N ->
+  cwrite c a [v] = cset c a (N.land v (wmask a)).
+Proof. intros [->| ->] _; reflexivity. Qed.
+
+Lemma set_address_length_c len d c : 3 <= len <= 5 ->
+  exists d', set_address_length CB len d c = (Ok tt, d', cset c 3 (Z.to_N (len - 2))) /\ d_addr_len d' = len.
+Proof.
+  intro H. unfold set_address_length. replace ((3 <=? len) && (len <=? 5)) with true by lia.
+  mstep lia. rewrite reg_write_c by lia. exists (upd_in0 0 (upd_addr_len len d)). split; [|reflexivity].
+  f_equal. change (Z.to_N 3) with 3%N. rewrite cwrite_plain by (auto; lia). f_equal.
+  change (wmask 3) with (N.ones 2). rewrite N.land_ones. apply N.mod_small. change (2 ^ 2)%N with 4%N. lia.
+Qed.
+
+Theorem set_address_length_world me len d w :
+  (me < length (radios w))%nat -> 3 <= len <= 5 ->
+  exists d1 w1, set_address_length (WB me) len d w = (Ok tt, d1, w1)
+    /\ cview (get_radio w1 me) = cset (cview (get_radio w me)) 3 (Z.to_N (len - 2))
+    /\ (forall j, j <> me -> cview (get_radio w1 j) = cview (get_radio w j)).
+Proof.
+  intros Hme H. destruct (set_address_length_c len d (cview (get_radio w me)) H) as (d' & E & _).
+  destruct (sim_run me _ _ d w (sim_set_address_length me len) Hme _ _ _ E) as (d1 & w1 & E1 & _ & Hcv & Hf & _).
+  exists d1, w1. repeat split; assumption.
+Qed.
+
+(* ---- set_auto_retries(delay, count), ANY integers: SETUP_RETR := ((clamp(delay,250,4000)-250)/250) << 4 | clamp(count,0,15) ---- *)
+Lemma lor_nibbles : forall q c, 0 <= q < 16 -> 0 <= c < 16 -> Z.lor (Z.shiftl q 4) c = 16 * q + c.
+Proof.
+  intros q c Hq Hc.
+  pose proof (sweepZ2 (fun q c => Z.lor (Z.shiftl q 4) c =? 16 * q + c) 16 16) as S.
+  apply Z.eqb_eq. apply S; [vm_compute; reflexivity|lia|lia].
+Qed.
+
+Definition retr_value (delay count : Z) : Z :=
+  16 * ((Z.max 250 (Z.min delay 4000) - 250) / 250) + Z.max 0 (Z.min count 15).
+
+Lemma retr_value_range delay count : 0 <= retr_value delay count <= 255.
+Proof.
+  unfold retr_value.
+  assert (0 <= (Z.max 250 (Z.min delay 4000) - 250) / 250 <= 15).
+  { split; [apply Z.div_pos; lia|]. apply Z.lt_succ_r. apply Z.div_lt_upper_bound; lia. }
+  lia.
+Qed.
+
+Lemma set_auto_retries_c delay count d c :
+  exists d', set_auto_retries CB delay count d c = (Ok tt, d', cset c 4 (Z.to_N (retr_value delay count))).
+Proof.
+  unfold set_auto_retries, ard_bits.
+  assert (Hq : 0 <= (Z.max 250 (Z.min delay 4000) - 250) / 250 < 16).
+  { split; [apply Z.div_pos; lia|]. apply Z.div_lt_upper_bound; lia. }
+  rewrite lor_nibbles by lia. fold (retr_value delay count).
+  pose proof (retr_value_range delay count) as Hr.
+  mstep lia. rewrite reg_write_c by lia. eexists. f_equal.
+  change (Z.to_N 4) with 4%N. rewrite cwrite_plain by (auto; lia). f_equal.
+  change (wmask 4) with (N.ones 8). rewrite N.land_ones. apply N.mod_small. change (2 ^ 8)%N with 256%N. lia.
+Qed.
+
+Theorem set_auto_retries_world me delay count d w :
+  (me < length (radios w))%nat ->
+  exists d1 w1, set_auto_retries (WB me) delay count d w = (Ok tt, d1, w1)
+    /\ cview (get_radio w1 me) = cset (cview (get_radio w me)) 4 (Z.to_N (retr_value delay count))
+    /\ (forall j, j <> me -> cview (get_radio w1 j) = cview (get_radio w j)).
+Proof.
+  intros Hme. destruct (set_auto_retries_c delay count d (cview (get_radio w me))) as (d' & E).
+  destruct (sim_run me _ _ d w (sim_set_auto_retries me delay count) Hme _ _ _ E) as (d1 & w1 & E1 & _ & Hcv & Hf & _).
+  exists d1, w1. repeat split; assumption.
+Qed.
